@@ -31,7 +31,8 @@ PROPS = ['C03', 'C04']
 STR_KEYS = ['k', 'key2', '(1, 3)', "('a', 3)", 'a b', 'x.y', "q'uote",
             'ab_cd', '((1,), {})', '0f3a9c', 'TASK_1', 'K_max', 'xK_yK_z',        # the last three contain the entry-directory prefix
             # text outside ASCII: latin-1 range, a decomposed (NFD) accent, a compatibility character, CJK
-            'stra\u00dfe', 'e\u0301te\u0301', '\u2126', '\u65e5\u672c']
+            'stra\u00dfe', 'e\u0301te\u0301', '\u2126', '\u65e5\u672c',
+            '.cfg', 'L' * 228 + 'x']         # a hidden-file name; a name of 229 characters (still a legal file name)
 IDENT_KEYS = ['d41d8cd98f', 'k1', 'ab_cd', 'Z9', 'f00', 'e3b0c44298fc1c14', 'TASK_1', 'K_max', 'stra\u00dfe', '\u65e5\u672c']
 INT_KEYS = [1, 2, -7, 10 ** 12]
 FLOAT_KEYS = [1.5, -0.25]
@@ -54,10 +55,10 @@ RISKY_KEYS = {
     'tempname': ['.I_x'],
 }
 
-JSON_VALUES = [0, 7, -3, 'v', 'w w', 2.5, None, True, [1, 'a', [2]],
+JSON_VALUES = [0, 7, -3, 'v', 'w w', 2.5, None, True, [1, 'a', [2]], '02139',
                {'$d': [['a', 1], ['b', [1]]]}, '', 'na\u00efve \u65e5\u672c']
-SQL_VALUES = [7, 'v', 2.5, None, {'$b': '0001ff'}, -3, 'w w', '', 'na\u00efve \u65e5\u672c']
-SRC_VALUES = [7, 'v', 2.5, None, {'$t': [1, 'a']}, [1, {'$t': [2]}],
+SQL_VALUES = [7, 'v', 2.5, None, {'$b': '0001ff'}, -3, 'w w', '', '02139', '1.10', '1e3', 'na\u00efve \u65e5\u672c']
+SRC_VALUES = [7, 'v', 2.5, None, '02139', '1.10', {'$t': [1, 'a']}, [1, {'$t': [2]}],
               {'$d': [['a', {'$t': [1]}]]}, {'$b': '6162'}, True, '', 'na\u00efve \u65e5\u672c']
 PKL_VALUES = SRC_VALUES + [{'$t': [1, {'$t': [2, 3]}]},
                            {'$d': [[1, 'a'], [{'$t': [1, 2]}, [3]]]},
